@@ -186,6 +186,9 @@ class GoMap:
     def has_sym(self):
         return any(isinstance(e[0], SymName) for e in self.d.values())
 
+    def has_symint(self):
+        return any(is_sym(e[0]) and conc(e[0]) is None for e in self.d.values())
+
     def get(self, k):
         e = self.d.get(keyof(k))
         return e
@@ -265,7 +268,7 @@ def keyof(v):
         c = conc(v)
         if c is not None:
             return c
-        raise Unsupported('symbolic map key')
+        return ('Z', v.get_id())          # symbolic integer key: equalities with other keys are decided by the path controller
     return ('O', id(v))
 
 
@@ -916,6 +919,11 @@ class Machine:
                 if e is not None:
                     e[1] = cp(val(fr, A[2]))
                     return None
+            elif (is_sym(k) and conc(k) is None) or (isinstance(k, int) and not isinstance(k, bool) and m.has_symint()) or (is_sym(k) and m.has_symint()):
+                e = self.map_find_int(m, k)
+                if e is not None:
+                    e[1] = cp(val(fr, A[2]))
+                    return None
             m.set(k, cp(val(fr, A[2])))
             return None
         if op == 'MakeMap':
@@ -1043,17 +1051,12 @@ class Machine:
                 return (zero, False) if commaok else zero
             v = cp(entries[i][1])
             return (v, True) if commaok else v
-        if is_sym(k) and conc(k) is None:
-            # symbolic key: fork over the entries
-            entries = list(m.d.values())
-            conds = []
-            for ek, ev in entries:
-                conds.append(k == self.tobv(ek, k.size()))
-            conds.append(z3.And([z3.Not(c) for c in conds]) if conds else z3.BoolVal(True))
-            i = self.ctl.choose(conds)
-            if i == len(entries):
+        if (is_sym(k) and conc(k) is None) or ((is_sym(k) or (isinstance(k, int) and not isinstance(k, bool))) and m.has_symint()):
+            # symbolic key (or symbolic keys in the map): fork over the entries
+            e = self.map_find_int(m, k)
+            if e is None:
                 return (zero, False) if commaok else zero
-            v = cp(entries[i][1])
+            v = cp(e[1])
             return (v, True) if commaok else v
         if is_sym(k):
             k = conc(k)
@@ -1064,6 +1067,29 @@ class Machine:
         if e is None:
             return (zero, False) if commaok else zero
         return (cp(e[1]), True) if commaok else cp(e[1])
+
+    def map_find_int(self, m, k):
+        """entry of m whose integer key equals k, symbolic equalities decided through the path controller (one path per
+        feasible entry, one for "absent")"""
+        entries = [e for e in m.d.values() if is_sym(e[0]) or (isinstance(e[0], int) and not isinstance(e[0], bool))]
+        w = k.size() if is_sym(k) else next((e[0].size() for e in entries if is_sym(e[0])), 64)
+        kb = self.tobv(k, w)
+        conds, cands, prev = [], [], []
+        for e in entries:
+            c = simp(kb == self.tobv(e[0], w))
+            if z3.is_false(c):
+                continue
+            conds.append(z3.And([c] + [z3.Not(q) for q in prev]))
+            cands.append(e)
+            prev.append(c)
+            if z3.is_true(c):
+                break
+        else:
+            conds.append(z3.And([z3.Not(q) for q in prev]) if prev else z3.BoolVal(True))
+        if not cands:
+            return None
+        i = self.ctl.choose(conds)
+        return cands[i] if i < len(cands) else None
 
     def type_assert(self, x, ins, pos):
         at = ins['at']
